@@ -157,12 +157,24 @@ func applyRemovals(actions []pruneAction, dryRun bool, out io.Writer) error {
 	return errors.Join(errs...)
 }
 
-func indexRepositories(repositories []repositorySpec, opts gitindex.Options, out io.Writer) error {
+func indexRepositories(repositories []repositorySpec, pruned []pruneAction, opts gitindex.Options, out io.Writer) error {
+	prunedNames := make(map[string]bool, len(pruned))
+	for _, action := range pruned {
+		prunedNames[action.Name] = true
+	}
+
 	var errs []error
 	for _, repo := range repositories {
 		repoOpts := opts
 		repoOpts.RepoDir = repo.Source
 		repoOpts.BuildOptions.RepositoryDescription = zoekt.Repository{Name: repo.Name}
+		if repoOpts.DryRun && prunedNames[repo.Name] {
+			// A preview keeps the shards that -f removes before indexing. They are
+			// named after the repository, so the incremental check would compare
+			// against an index that is gone by the time -f indexes.
+			fmt.Fprintf(out, "Would index %q from %s\n", repo.Name, repo.Source)
+			continue
+		}
 		if !repoOpts.DryRun {
 			fmt.Fprintf(out, "Indexing %q from %s\n", repo.Name, repo.Source)
 		}
